@@ -58,6 +58,9 @@ def idx(ef, tok, exact=False):
     return None
 
 
+_IN_R13 = False
+
+
 def check(facts, rep, tier, cfg):
     crate = facts.crate("penguin_mux")
     if crate is None:
@@ -459,6 +462,30 @@ def check(facts, rep, tier, cfg):
             else:
                 rep.ok("C08.R12", key12, w12, "one dequeue per call, handed to the caller")
     rep.floor("C08.R12", "dequeues of the accepting calls", k12, 3)
+    # ---- R13 the keepalive can expire: only a Pong refreshes the last-pong timestamp (= C16.R1)
+    rep.rule("C08.R13", "a dead outbound direction is noticed (= C16.R1): the last-pong timestamp is written on the Pong arm only, so traffic "
+                        "the peer sends on its own does not keep an endpoint alive whose pings are no longer answered - otherwise the keepalive "
+                        "cause of the teardown never fires and pending calls block forever")
+    import rules_c16
+    sub16 = type(rep)(rep.prop, rep.tier, rep.config)
+    global _IN_R13
+    if _IN_R13:
+        sub16 = None        # C16 itself re-uses C08 rules: do not recurse
+    else:
+        _IN_R13 = True
+        try:
+            rules_c16.check(facts, sub16, tier, cfg)
+        except Exception:
+            sub16 = None
+        finally:
+            _IN_R13 = False
+    if sub16 is not None:
+        for i in sub16.instances:
+            if i["rule"] == "C16.R1":
+                rep.ok("C08.R13", i["key"], i["where"], i["detail"], nontrivial=False)
+        for v in sub16.violations:
+            if v["rule"] == "C16.R1":
+                rep.bad("C08.R13", v["key"].split("/", 1)[1] if v["key"].startswith("C16") else v["key"], v["where"], v["msg"])
     import adapter
     adapter.check_adapter(facts, rep, "C08.S8")
     rep.rule("C08.S7", "who-may: the functions that touch the critical resources behind this property are those of the reference tree (flow table, closed flag, per-stream / datagram / outbound queues, last-pong timestamp, client id maps, shared TLS identity)")
